@@ -899,6 +899,7 @@ fn drive(sp: &Spec, model: Arc<dyn TraversalModel>, vehicle: Option<Arc<dyn Vehi
                     TraversalModelError::UnitsFailure { .. } => "units",
                     TraversalModelError::TraversalModelFailure(_) => "failure",
                     TraversalModelError::StateError { .. } => "state",
+                    TraversalModelError::CacheFailure { .. } => "cache",
                     _ => "other",
                 };
                 parts.push(format!("err {}", k));
@@ -1010,6 +1011,15 @@ fn key_policy(r: &RecSpec) -> Option<FloatCachePolicy> {
 
 fn oracle_inner(ctx: &mut Fails, idx: usize, sp: &Spec, oc: &Outcome, twin: Option<&Outcome>, unc: Option<&Outcome>) {
     let battery = sp.kind != Kind::Ice;
+    let bad_len = |r: &RecSpec| r.cache.as_ref().map(|(_, p)| p.len() != 2).unwrap_or(false);
+    if let Some(c) = &sp.cfg {
+        // a float_cache_policy without one key_precisions entry per model input is a configuration error
+        let any_bad = c.library.iter().any(|(_, v)| bad_len(&v.rec) || v.sustain.as_ref().map(bad_len).unwrap_or(false));
+        if any_bad && !oc.engine_rejected {
+            ctx.fail(idx, "predict/cache-key-length", "a vehicle with a float_cache_policy whose key_precisions does not have two entries was built from configuration".to_string());
+            return;
+        }
+    }
     if oc.engine_rejected {
         return;
     }
@@ -1096,7 +1106,7 @@ fn oracle_inner(ctx: &mut Fails, idx: usize, sp: &Spec, oc: &Outcome, twin: Opti
     // real `float_key_to_int_key`.  An edge all of whose same-key predecessors (same record) were handed
     // the same inputs must be charged the rate at its own inputs whether it is a hit or a miss; when a
     // predecessor with the same key was handed different inputs, the recorded finding
-    // predict/cache-key-collision applies instead.
+    // predict/cache-rounding-collision applies instead.
     let unc_inputs: Vec<Option<(f64, f64)>> = match unc {
         Some(u) => u.steps.iter().map(|s| match s { Step::Ok(_, _, _, h, _) => *h, Step::Err(_) => None }).collect(),
         None => vec![],
@@ -1149,6 +1159,10 @@ fn oracle_inner(ctx: &mut Fails, idx: usize, sp: &Spec, oc: &Outcome, twin: Opti
                 }
             }
         };
+        if bad_len(rec) {
+            ctx.fail(idx, "predict/cache-key-length", format!("edge #{} was served by a record whose float_cache_policy has key_precisions {:?}: inputs are dropped from the cache key", i, rec.cache.as_ref().map(|(_, p)| p.clone())));
+            return;
+        }
         let is_main = std::ptr::eq(rec, &sp.rec);
         // could the cache hold, under this edge's key, a rate computed for different inputs?
         let collision_possible = if rec.cache.is_some() {
@@ -1204,7 +1218,8 @@ fn oracle_inner(ctx: &mut Fails, idx: usize, sp: &Spec, oc: &Outcome, twin: Opti
             let key = if rec.cache.is_some() && !called && !collision_possible {
                 "cache/not-transparent"
             } else if rec.cache.is_some() && !called {
-                "predict/cache-key-collision"
+                // the documented trade-off of a rounding cache: different inputs under one rounded key
+                "predict/cache-rounding-collision"
             } else if sp.cfg.is_some() && (delta - e_f / rec.adj).abs() <= tol {
                 "builder/real-world-adjustment"
             } else {
@@ -1279,7 +1294,7 @@ fn oracle_inner(ctx: &mut Fails, idx: usize, sp: &Spec, oc: &Outcome, twin: Opti
                 let key = if cached && !route_collision {
                     "cache/not-transparent"
                 } else if cached {
-                    "predict/cache-key-collision"
+                    "predict/cache-rounding-collision"
                 } else {
                     "energy/additivity"
                 };
@@ -1373,14 +1388,15 @@ fn gen_cache(rng: &mut Rng) -> Option<(usize, Vec<i32>)> {
         return None;
     }
     let size = *rng.pick(&[1usize, 2, 3, 8, 100]);
-    let precs: Vec<i32> = match rng.below(8) {
+    // a policy must have one precision per model input (speed, grade); other lengths are refused
+    let precs: Vec<i32> = match rng.below(24) {
         0 => vec![],
         1 => vec![1],
-        2 => vec![0, 0],
-        3 => vec![2, 4],
-        4 => vec![8, 8],
-        5 => vec![-1, 2],
-        6 => vec![3, 3, 3],
+        2 => vec![3, 3, 3],
+        3..=6 => vec![0, 0],
+        7..=10 => vec![2, 4],
+        11..=14 => vec![8, 8],
+        15..=17 => vec![-1, 2],
         _ => vec![rng.range(-2, 10) as i32, rng.range(-2, 10) as i32],
     };
     Some((size, precs))
@@ -1602,14 +1618,14 @@ fn corpus() -> Vec<Spec> {
     let mut v = vec![];
     // 0: plain BEV, 3 edges, no cache
     v.push(base_spec(Kind::Bev, plain_rec(kwh, 0.2, 0.001, 3.0, 0.2, None), None, 60.0, EnergyUnit::KilowattHours, Query::Num(50.0)));
-    // 1: witness best_case_energy_state/unit-mix — battery in gallons of gasoline, rate in kWh per mile
+    // 1: regression witness of the repaired best_case_energy_state/unit-mix — battery in gallons of gasoline, rate in kWh per mile
     v.push(base_spec(Kind::Bev, plain_rec(kwh, 0.2, 0.001, 3.0, 0.2, None), None, 2.0, EnergyUnit::GallonsGasoline, Query::Num(50.0)));
-    // 2: witness predict/cache-key-collision — key_precisions = [2]: the grade is not part of the key, so the
+    // 2: regression witness of the repaired predict/cache-key-length — key_precisions = [2]: the grade is not part of the key, so the
     //    uphill edge 1 and the downhill edge 2 (same speed as edge 0 after the table below) reuse edge 0's rate
     let mut s = base_spec(Kind::Bev, plain_rec(kwh, 0.2, 0.001, 3.0, 0.2, Some((100, vec![2]))), None, 60.0, EnergyUnit::KilowattHours, Query::Num(50.0));
     s.speeds = vec![30.0, 30.0, 30.0];
     v.push(s);
-    // 3: witness predict/cache-key-collision — key_precisions = [0, 0]: 30.0 and 30.4 mph share a key
+    // 3: witness predict/cache-rounding-collision — key_precisions = [0, 0]: 30.0 and 30.4 mph share a key
     let mut s = base_spec(Kind::Ice, plain_rec(gas, 0.03, 0.001, 0.5, 0.02, Some((100, vec![0, 0]))), None, 1.0, EnergyUnit::GallonsGasoline, Query::Absent);
     s.grades = None;
     v.push(s);
@@ -1979,7 +1995,12 @@ pub fn run(ctx: &mut Ctx) -> &'static str {
                 // the two constructions of the real code must agree (the speed file reader alone rejects
                 // a negative speed, the in-process engine is a struct literal)
                 let valid_name = matches!(&cfg.name, NameQuery::Name(k) if cfg.library.iter().any(|(id, _)| id == k));
-                if valid_name && cfg.malformed.is_none() && !sp.speeds.iter().any(|x| *x < 0.0) && strip_direct(&twin_out) != (if out.starts_with("built ") { out.splitn(2, " | ").nth(1).unwrap_or("") } else { out.as_str() }) {
+                let bad_policy = cfg.library.iter().any(|(_, v)| {
+                    let bad = |r: &RecSpec| r.cache.as_ref().map(|(_, p)| p.len() != 2).unwrap_or(false);
+                    bad(&v.rec) || v.sustain.as_ref().map(bad).unwrap_or(false)
+                });
+                if bad_policy { ctx.count("cfg_cache_policy_wrong_length"); }
+                if valid_name && cfg.malformed.is_none() && !bad_policy && !sp.speeds.iter().any(|x| *x < 0.0) && strip_direct(&twin_out) != (if out.starts_with("built ") { out.splitn(2, " | ").nth(1).unwrap_or("") } else { out.as_str() }) {
                     ctx.fail(idx, "builder/in-process-twin", format!("the model built from configuration gives `{}` where the same vehicle constructed in-process gives `{}`", out.chars().take(300).collect::<String>(), strip_direct(&twin_out).chars().take(300).collect::<String>()));
                 }
             }
